@@ -148,6 +148,7 @@ fn add_stats(a: &mut Acc, s: &CaseStats) {
     let mut add = |k: &'static str, v: u64| *a.sums.entry(k).or_insert(0) += v;
     add("ops", s.ops as u64);
     add("noops", s.noops as u64);
+    add("inapplicable_ops_turned_into_progress", s.fallbacks as u64);
     add("lib_calls", s.lib_calls as u64);
     add("delivered", s.delivered as u64);
     add("dropped", s.dropped as u64);
